@@ -201,6 +201,7 @@ package ipfix
 
 //@ func (*Decoder).decodeSet
 //@   names d mem msg _ startCount setHeader err tr err ok minLen setID templateID err tr data leftoverBytes _ skipErr
+//@   opt countcalls insert
 //@   callassert insert: sameview(arg1, d.raddr) && arg0 == arg2.TemplateID   // a parsed template is stored under the exporter's own address and its own id
 //@   callassert insert: setHeader.SetID == 2 ==> len(arg2.FieldSpecifiers) == arg2.FieldCount && len(arg2.ScopeFieldSpecifiers) == 0   // exactly the specifiers of this template record, nothing left over from an earlier one
 //@   callassert insert: setHeader.SetID == 3 ==> len(arg2.ScopeFieldSpecifiers) == arg2.ScopeFieldCount && len(arg2.FieldSpecifiers) == (arg2.FieldCount - arg2.ScopeFieldCount) % 65536
@@ -231,6 +232,7 @@ package ipfix
 //@     exit [allrecords] err == nil && setHeader.SetID > 255 && setHeader.Length >= d.reader.count - startCount ==> setHeader.Length - (d.reader.count - startCount) < specMinRec(tr) || len(d.reader.data) < specMinRec(tr)   // records are decoded as long as one more fits in the set; what is left is padding
 //@     invariant [tpl] setHeader.SetID > 255 && cacheHas(old(mem), d.raddr, setHeader.SetID) ==> tr == cacheGet(old(mem), d.raddr, setHeader.SetID)   // every record of the set is decoded with the template retrieved for (exporter, set id)
 //@     step [record] len(msg.DataSets) == iter(len(msg.DataSets)) || (len(msg.DataSets) == iter(len(msg.DataSets)) + 1 && setHeader.SetID > 255)
+//@     step [stored] (setHeader.SetID == 2 || setHeader.SetID == 3) && err == nil ==> calls_insert == iter(calls_insert) + 1   // every template record that parses is stored (with the arguments the call assertions fix), exactly once
 //@     decreases len(d.reader.data) + (err == nil ? 1 : 0)
 
 //@ func (*Decoder).Decode
@@ -239,6 +241,7 @@ package ipfix
 //@   requires rdr(d.reader) && d.reader.count == 0 && len(d.reader.base) <= 65535 && wellFormed(mem)
 //@   ensures (len(old(d.reader.base)) < 16 || be16(old(d.reader.base), 0) != 10) ==> result == nil && err != nil
 //@   ensures result != nil ==> mhdrAt(result.Header, old(d.reader.base), 0)
+//@   ensures [allsets] result != nil ==> len(d.reader.data) <= 4   // every set that could hold a record was visited: nothing but padding is left behind
 //@   ensures result == nil ==> err != nil
 //@   ensures result != nil ==> jssafe(result.AgentID) && result.AgentID == ipText(d.raddr)
 //@   ensures [records] result != nil ==> len(result.DataSets) <= len(old(d.reader.base))
@@ -249,6 +252,7 @@ package ipfix
 //@     invariant mhdrAt(msg.Header, d.reader.base, 0)
 //@     invariant len(msg.DataSets) <= d.reader.count
 //@     invariant forall q :: decodeErrors.off <= q && q < decodeErrors.off + len(decodeErrors) ==> decodeErrors.arr[q] != nil
+//@     step [framing] d.reader.count == iter(d.reader.count) + be16(d.reader.base, iter(d.reader.count) + 2)   // between two sets the reader moves by exactly the declared length of the set, whether or not the set could be decoded
 //@     decreases len(d.reader.data)
 
 //@ func combineErrors
